@@ -7,7 +7,8 @@ MANIFEST = {
             "subscripts hand out consecutive, disjoint, in-range blocks or take the abort path; an H-supernode slot of w x rows "
             "entries suffices for the unchecked LUSUP allocations of its columns (PARTIAL: given that the predicted row count "
             "dominates the actual one); an L-storage image accepted by the executable checker has ordered slots; the task queue "
-            "stays within n slots. Tie: the Gallina model of ?PresetMap is compared EXACTLY with the map_in_sup image of real runs "
+            "stays within n slots. Tie: the bump allocator model replayed on the request sequence of every run (hook inside the lock, with seeded "
+            "delays while the lock is held) must give the very blocks the implementation handed out; the Gallina model of ?PresetMap is compared EXACTLY with the map_in_sup image of real runs "
             "(snapshot through the hook) and the verified checker is run on it; every LUSUP allocation of every thread is "
             "monitored against the end of its slot (an overrun inside the big array is invisible to ASan); ASan+UBSan runs of the "
             "drivers; too small U / L-subscript estimates must stop with the library's diagnostic. Inputs: patterns without "
@@ -60,12 +61,19 @@ def run(ctx):
     N = 80 if ctx.quick() else 1000
     cases = [make_case(rng, k + 1, rng.randint(2, 40 if ctx.quick() else 120), kinds[k % len(kinds)], ctx.quick()) for k in range(N)]
     exe = drv.build(ctx, "d", "hooks")
-    nmap = nslot = 0
+    nmap = nslot = nbump = 0
     for mode in ("static", "dynamic"):
         env = {"SuperLU_DYNAMIC_SNODE_STORE": "1"} if mode == "dynamic" else None
         sub = cases if mode == "static" else cases[::3]
         res = drv.run_grouped(exe, sub, par=max(1, vf.NCPU // 3)) if env is None else \
             [drv.run_batch(exe, [c], env=env)[0] for c in sub]
+        bb, nb = drv.check_bumps(adrv, res)
+        nbump += nb
+        for k, msg in bb.items():
+            if k < 0:
+                ctx.broken.append(msg)
+            else:
+                ctx.violation("C05 (%s): %s" % (mode, msg), {"mode": mode, "case": sub[k]}, key={"kind": "bump_allocator"})
         lines, idx = [], []
         for k, (c, r) in enumerate(zip(sub, res)):
             ctx.count((mode, c["kind"], c["n"], tuple(c["rowind"][:40]), c["nprocs"], c.get("thresh"), tuple(c.get("permr") or [])),
@@ -110,6 +118,7 @@ def run(ctx):
                     ctx.violation("C05: storage image rejected by the verified slot checker: %s" % mm[:20], {"case": c, "map": mm},
                                   key={"kind": "slots"})
     ctx.cov["correspondence"]["presetmap_images_compared"] = nmap
+    ctx.cov["correspondence"]["bump_allocator_logs_equal_to_model"] = nbump
     ctx.cov["correspondence"]["runs_with_every_LUSUP_allocation_inside_its_slot"] = nslot
     # ---- ASan/UBSan sample and the abort path
     exe_a = drv.build(ctx, "d", "asan")
